@@ -17,6 +17,12 @@ fn main() {
         eprintln!("usage: mtverif <ID> [--tier quick|thorough] [--replay file] [--seed n]");
         std::process::exit(2);
     }
+    if args[1] == "--child-build" {
+        std::process::exit(checks::c05::child_main());
+    }
+    if args[1] == "--child-big" {
+        std::process::exit(checks::c05::child_big(args[2].parse().unwrap_or(64)));
+    }
     let id = args[1].clone();
     let mut tier = match std::env::var("VERIF_TIER").as_deref() {
         Ok("thorough") => Tier::Thorough,
